@@ -238,9 +238,16 @@ class Result:
             "violations": len(self.violations),
         }
 
+    def _out_root(self) -> str:
+        """Evidence and replays under /verif describe /repo only; a run against a scratch tree (VK_REPO) writes elsewhere."""
+        repo = os.environ.get("VK_REPO", "/repo")
+        if os.path.realpath(repo) == os.path.realpath("/repo"):
+            return VERIF
+        return os.path.join(os.environ.get("TMPDIR", "/tmp"), "vk_scratch_out", os.path.basename(os.path.normpath(repo)))
+
     def write(self, seed: int):
-        os.makedirs(os.path.join(VERIF, "evidence"), exist_ok=True)
-        p = os.path.join(VERIF, "evidence", f"{self.prop}.json")
+        os.makedirs(os.path.join(self._out_root(), "evidence"), exist_ok=True)
+        p = os.path.join(self._out_root(), "evidence", f"{self.prop}.json")
         with open(p, "w") as fh:
             json.dump(self.evidence(seed), fh, indent=1, sort_keys=False)
         return p
@@ -248,7 +255,7 @@ class Result:
     def write_replay(self) -> Optional[str]:
         if not self.violations:
             return None
-        d = os.path.join(VERIF, "replays")
+        d = os.path.join(self._out_root(), "replays")
         os.makedirs(d, exist_ok=True)
         p = os.path.join(d, f"{self.prop}.json")
         with open(p, "w") as fh:
